@@ -118,7 +118,19 @@ fn run(eng: &Engine, a: &Args) {
         let proto = t.inputs[0].clone();
         t.inputs = (0..0x10001u32).map(|k| { let mut i = proto.clone(); i.src = vpmodel::spec::Src::Unknown((k & 0xff) as u8, k); i.sequence = k; i }).collect();
     }
-    eng.enumerate("wide-transaction", vec![Case { chain: wide, verify: false, stale_tmp: false }], check);
+    // single fields of more than a million bytes (no field of a stored block is limited below the block size):
+    // a 1 000 001-byte scriptSig, a 1.5 MB output script and a 2 MB witness item in three consecutive blocks
+    let mut scripts: Vec<Vec<u8>> = (0..6usize).map(|i| vec![0x51 + i as u8]).collect();
+    scripts[3] = { let mut s = vec![0x6au8]; s.extend((0..1_500_000u32).map(|k| (k % 251) as u8)); s };
+    let mut mega = vpmodel::spec::chain_from_scripts(vpmodel::chain::Coin::Bitcoin, &scripts, &[5_000, 7_000], 1, 2, 0, 1_400_000_000);
+    if let Some(t) = mega.blocks[0].txs.first_mut() {
+        t.inputs[0].script_sig = (0..1_000_001u32).map(|k| (k % 253) as u8).collect();
+    }
+    if let Some(t) = mega.blocks.last_mut().and_then(|b| b.txs.first_mut()) {
+        t.segwit = true;
+        t.inputs[0].witness = vec![vec![0x30; 71], (0..2_000_000u32).map(|k| (k % 241) as u8).collect()];
+    }
+    eng.enumerate("wide-transaction", vec![Case { chain: wide, verify: false, stale_tmp: false }, Case { chain: mega, verify: false, stale_tmp: false }], check);
 }
 
 fn replay(part: &str, case: serde_json::Value) -> Option<Verdict> {
